@@ -3,9 +3,13 @@ module verif
 go 1.24.0
 
 require (
+	deps.dev/util/resolve v0.0.0-20250310223405-f4cf91c9e684
+	deps.dev/util/semver v0.0.0-20250307021655-d811e36f9cad
 	github.com/anishathalye/porcupine v1.3.0
 	github.com/gobwas/glob v0.2.3
+	github.com/google/go-containerregistry v0.19.1
 	github.com/google/osv-scalibr v0.0.0
+	github.com/ossf/osv-schema/bindings/go v0.0.0-20250210065807-ab8a4f6e6389
 	pgregory.net/rapid v1.3.0
 )
 
@@ -13,8 +17,6 @@ require (
 	deps.dev/api/v3 v3.0.0-20250307021655-d811e36f9cad // indirect
 	deps.dev/util/maven v0.0.0-20250307021655-d811e36f9cad // indirect
 	deps.dev/util/pypi v0.0.0-20250307021655-d811e36f9cad // indirect
-	deps.dev/util/resolve v0.0.0-20250310223405-f4cf91c9e684 // indirect
-	deps.dev/util/semver v0.0.0-20250307021655-d811e36f9cad // indirect
 	github.com/BurntSushi/toml v1.3.2 // indirect
 	github.com/CycloneDX/cyclonedx-go v0.9.0 // indirect
 	github.com/anchore/go-struct-converter v0.0.0-20230627203149-c72ef8859ca9 // indirect
@@ -46,12 +48,12 @@ require (
 	github.com/go-logr/stdr v1.2.2 // indirect
 	github.com/gogo/protobuf v1.3.2 // indirect
 	github.com/google/go-cmp v0.7.0 // indirect
-	github.com/google/go-containerregistry v0.19.1 // indirect
 	github.com/google/uuid v1.6.0 // indirect
 	github.com/groob/plist v0.1.1 // indirect
 	github.com/jbenet/go-context v0.0.0-20150711004518-d14ea06fba99 // indirect
 	github.com/klauspost/compress v1.17.7 // indirect
 	github.com/mattn/go-sqlite3 v1.14.22 // indirect
+	github.com/michaelkedar/xml v0.0.0-20250310223042-5d14c9302b17 // indirect
 	github.com/mitchellh/go-homedir v1.1.0 // indirect
 	github.com/moby/locker v1.0.1 // indirect
 	github.com/moby/sys/mountinfo v0.6.2 // indirect
@@ -63,6 +65,7 @@ require (
 	github.com/opencontainers/runtime-spec v1.1.0 // indirect
 	github.com/opencontainers/selinux v1.11.0 // indirect
 	github.com/package-url/packageurl-go v0.1.2 // indirect
+	github.com/pandatix/go-cvss v0.6.2 // indirect
 	github.com/pkg/errors v0.9.1 // indirect
 	github.com/rust-secure-code/go-rustaudit v0.0.0-20250226111315-e20ec32e963c // indirect
 	github.com/saferwall/pe v1.5.6 // indirect
@@ -74,6 +77,7 @@ require (
 	github.com/tidwall/jsonc v0.3.2 // indirect
 	github.com/tidwall/match v1.1.1 // indirect
 	github.com/tidwall/pretty v1.2.0 // indirect
+	github.com/tidwall/sjson v1.2.5 // indirect
 	github.com/vbatts/tar-split v0.11.5 // indirect
 	go.etcd.io/bbolt v1.3.10 // indirect
 	go.opentelemetry.io/contrib/instrumentation/net/http/otelhttp v0.45.0 // indirect
